@@ -120,26 +120,58 @@ def r3(ctx):
     ctx.check([norm(b) for b in de.node.bases] == ["Exception"], "C20.R3", de.qual, "DispatchError is an Exception")
 
 
+def _enumeration(fi, call):
+    """how the loop around `call` enumerates the resource's members -> (kind, object text, member variable, filter conjuncts)"""
+    l = call
+    while l is not None and not isinstance(l, ast.For):
+        l = getattr(l, "_parent", None)
+    if l is None:
+        return ("none", None, None)
+    it = l.iter
+    # for name in dir(X): attr = getattr(X, name)
+    if isinstance(it, ast.Call) and norm(it.func) == "dir" and len(it.args) == 1 and isinstance(l.target, ast.Name):
+        obj, name = norm(it.args[0]), l.target.id
+        gets = [s for s in l.body if isinstance(s, ast.Assign) and len(s.targets) == 1 and isinstance(s.targets[0], ast.Name)
+                and isinstance(s.value, ast.Call) and norm(s.value.func) == "getattr" and [norm(x) for x in s.value.args] == [obj, name]]
+        if len(gets) == 1 and l.body[0] is gets[0]:
+            return ("all-members", obj, gets[0].targets[0].id)
+        return ("unknown:" + norm(it), obj, None)
+    # for name, attr in inspect.getmembers(X[, predicate])
+    if isinstance(it, ast.Call) and norm(it.func) in ("inspect.getmembers", "getmembers") and it.args and isinstance(l.target, ast.Tuple) and len(l.target.elts) == 2 \
+            and isinstance(l.target.elts[1], ast.Name):
+        extra = ["%s(@)" % norm(it.args[1])] if len(it.args) > 1 else []
+        return ("all-members", norm(it.args[0]), l.target.elts[1].id, extra)
+    return ("unknown:" + norm(it), None, None)
+
+
+def _abs(text, var):
+    import re
+    return re.sub(r"\b%s\b" % re.escape(var), "@", text) if var else text
+
+
 def r4(ctx):
     rg, ur = ctx.fn(D + "register"), ctx.fn(D + "unregister")
-
-    def shape(fi):
-        loops = [n for n in walk_own(fi.node) if isinstance(n, ast.For)]
-        if len(loops) != 1:
-            return None
-        l = loops[0]
-        at = [s for s in l.body if isinstance(s, ast.Assign)]
-        ifs = [s for s in l.body if isinstance(s, ast.If)]
-        return {"iter": norm(l.iter), "attr": [norm(a) for a in at], "filter": [norm(i.test) for i in ifs], "body": [norm(s) for i in ifs for s in i.body], "loop": l}
-    a, b = shape(rg), shape(ur)
-    if a is None or b is None:
-        ctx.violated("C20.R4", rg, "register/unregister loop shape", "one loop over dir(resource) expected on each side")
-        return
-    ctx.check(a["iter"] == b["iter"] == "dir(%s)" % rg.params[1] and a["attr"] == b["attr"] and a["filter"] == b["filter"] == ["inspect.isroutine(attr) and hasattr(attr, '_event')"], "C20.R4", ur,
-              "register and unregister visit the same methods (same iteration, same filter)", witness={"register": {k: a[k] for k in ("iter", "attr", "filter")}, "unregister": {k: b[k] for k in ("iter", "attr", "filter")}})
-    ctx.check(a["body"] == ["self.register_function(attr._event, attr)"], "C20.R4", rg, "register -> register_function(attr._event, attr)", witness=a["body"])
-    ctx.check(b["body"] == ["self.unregister_function(attr._event)"], "C20.R4", ur, "unregister -> unregister_function(attr._event), unconditionally",
-              "a pre-test comparing the raw annotation with the registered names never matches for class annotations", witness=b["body"])
+    sides = {}
+    for fi, callee in ((rg, "register_function"), (ur, "unregister_function")):
+        cs = calls_named(fi, callee)
+        if not ctx.require("C20.R4", fi, "%s call in %s" % (callee, fi.name), len(cs), 1):
+            return
+        c = cs[0]
+        en = _enumeration(fi, c)
+        var = en[2]
+        cfg = cfg_of(fi)
+        conds = sorted(set([(_abs(norm(t), var), pol) for (t, pol) in cfg.conditions_of(cfg.node_of(c).id)] + [(x, True) for x in (en[3] if len(en) > 3 else [])]))
+        sides[fi.name] = {"enumeration": en[0], "object": en[1], "filter": conds, "args": [_abs(norm(a), var) for a in c.args], "recv": norm(c.func.value)}
+    a, b = sides["register"], sides["unregister"]
+    ctx.check(a["enumeration"] == b["enumeration"] == "all-members" and a["object"] == rg.params[1] and b["object"] == ur.params[1], "C20.R4", ur,
+              "register and unregister enumerate the same members (every attribute of the resource, inherited ones included)",
+              witness={"register": a["enumeration"], "unregister": b["enumeration"]})
+    want = [("hasattr(@, '_event')", True), ("inspect.isroutine(@)", True)]
+    ctx.check(a["filter"] == b["filter"] == want, "C20.R4", ur, "register and unregister visit the same methods (same filter)",
+              "a pre-test comparing the raw annotation with the registered names never matches for class annotations",
+              witness={"register": a["filter"], "unregister": b["filter"]})
+    ctx.check(a["args"] == ["@._event", "@"] and a["recv"] == "self", "C20.R4", rg, "register -> register_function(attr._event, attr)", witness=a["args"])
+    ctx.check(b["args"] == ["@._event"] and b["recv"] == "self", "C20.R4", ur, "unregister -> unregister_function(attr._event)", witness=b["args"])
 
 
 def r5(ctx):
